@@ -34,22 +34,17 @@ def optBytes : Option Bytes → String
 def render (ja4 ja4r ja4o ja4ro ver : String) (sni alpn : Option Bytes) (c e s g : List Nat) : String :=
   s!"J={ja4} R={ja4r} O={ja4o} RO={ja4ro} v={ver} sni={optBytes sni} alpn={optBytes alpn} c={natList c} e={natList e} s={natList s} g={natList g}"
 
+def renderReport (r : Report) : String :=
+  render (String.ofList r.ja4) (String.ofList r.ja4r) (String.ofList r.ja4o) (String.ofList r.ja4ro) r.version
+    r.sni r.alpn r.ciphers r.extensions r.sigAlgs r.groups
+
 def modelOut (b : Bytes) : String × Option Signature :=
   match parseClientHello knownBodyOk b with
   | .err => ("err", none)
   | .notHello => ("none", none)
-  | .sig sg =>
-    let j := generateJa4 sha sg false
-    let o := generateJa4 sha sg true
-    (render (String.ofList j.full) (String.ofList j.raw) (String.ofList o.full) (String.ofList o.raw) sg.version.name sg.sni sg.alpn sg.ciphers sg.extensions sg.sigAlgs sg.curves,
-     some sg)
+  | .sig sg => (renderReport (reportOf sha sg), some sg)
 
-def specOut (ch : ClientHello) : Option String :=
-  match ja4 sha ch, versionField ch with
-  | some j, some v =>
-    some (render (String.ofList j.ja4) (String.ofList j.ja4r) (String.ofList j.ja4o) (String.ofList j.ja4ro) v (sniField ch) (alpnField ch) (cipherList ch) (extList ch)
-      (sigAlgsOf ch.exts) (groupsOf ch.exts))
-  | _, _ => none
+def specOut (ch : ClientHello) : Option String := (specReport sha ch).map renderReport
 
 def kfOf (ch : ClientHello) : List String :=
   (if decide (KF.C04.supportedVersionsNot13 ch) then ["KF.C04.supportedVersionsNot13"] else []) ++
@@ -120,7 +115,7 @@ def rawCase (impl : String) : P Verdict := do
       match hello with
       | some h =>
         (match h.ext with
-         | some d => "raw:sig/stop=" ++ stopType (parseExts knownBodyOk d.length d).length d
+         | some d => "raw:sig/stop=" ++ stopType (parsedExts knownBodyOk h.ext).length d
          | none => "raw:sig/noext")
       | none => "raw:sig"
   pure (verdictOf impl m none [] tag)
